@@ -171,6 +171,41 @@ func CheckCoherence(c *checker, key string, o DocObs) {
 			}
 		}
 	}
+	// --- GetSubDocRaw returns the JSON of exactly the addressed property (C18)
+	if d.Live && d.IsJSON {
+		var doc map[string]any
+		if json.Unmarshal(d.Body, &doc) == nil && doc != nil {
+			for p, got := range o.Sub {
+				var cur any = doc
+				found := true
+				for _, part := range strings.Split(p, ".") {
+					m, ok := cur.(map[string]any)
+					if !ok {
+						found = false
+						break
+					}
+					if cur, ok = m[part]; !ok || cur == nil {
+						found = false
+						break
+					}
+				}
+				if found {
+					want, _ := json.Marshal(cur)
+					if got.Err != "" || !JSONEqual(want, got.Body) || got.Cas != d.Cas {
+						c.add("C18", f("GetSubDocRaw."+p), "GetSubDocRaw(%q)=(%s, cas %d, err %q), the document's property is %s (cas %d)", p, got.Body, got.Cas, got.Err, want, d.Cas)
+					}
+				} else if got.Err == "" {
+					c.add("C18", f("GetSubDocRaw."+p), "GetSubDocRaw(%q) returned %s although the document %s has no such property", p, got.Body, d.Body)
+				}
+			}
+		}
+	} else if !d.Live {
+		for p, got := range o.Sub {
+			if got.Err == "" {
+				c.add("C18", f("GetSubDocRaw."+p), "GetSubDocRaw(%q) returned %s for a key without a body", p, got.Body)
+			}
+		}
+	}
 	// --- backfill view of the key (C05 opcode/body, C09 fields, C17 RevNo)
 	bf := o.Backfill
 	if !d.Row {
@@ -522,6 +557,9 @@ func CheckKVStep(op Op, env Env, pre, post KVObs, res Result) []Violation {
 					props = append(props, "C11")
 				}
 				CheckEventAgainstDoc(c, "event", props, evs[0], key, postDoc)
+				if evs[0].CollID != post.CollIDA {
+					c.add("C08", "event.collection", "feed %s: event carries collection id %d, the collection's id is %d", fn, evs[0].CollID, post.CollIDA)
+				}
 			}
 		}
 	}
